@@ -85,6 +85,17 @@ def _frange(e, cache, atom):
             a, b = rec(n.args[0]), rec(n.args[1])
             m = max(abs(b[0]), abs(b[1]))
             r = (-m, m, a[2] or b[2] or abs(a[0]) == INF or abs(a[1]) == INF or (b[0] <= 0 <= b[1]))
+        elif op == 'fdiv' and n.args[0].op == 'fsub' and n.args[1].op == 'fsub' and _minmax_leaves(n.args[1].args[0], 'call:max') is not None \
+                and _minmax_leaves(n.args[1].args[0], 'call:max') == _minmax_leaves(n.args[1].args[1], 'call:min') \
+                and {n.args[0].args[0].id, n.args[0].args[1].id} <= _minmax_leaves(n.args[1].args[0], 'call:max'):
+            # fl(a - b) / fl(max(S) - min(S)) with a, b in S: |a - b| <= max - min and rounding is monotone, so the quotient is in
+            # [-1, 1]; anything else (overflow to inf / inf, 0 / 0, NaN operands) is NaN
+            # (the NaN flag is the generic one: no NaN when the operands are finite and the divisor is known to be non-zero)
+            a, b = rec(n.args[0]), rec(n.args[1])
+            nan = True
+            if (b[0] > 0 or b[1] < 0) and not (a[2] or b[2]) and not ((abs(a[0]) == INF or abs(a[1]) == INF) and (abs(b[0]) == INF or abs(b[1]) == INF)):
+                nan = False
+            r = (-1.0, 1.0, nan)
         elif op == 'fdiv':
             a, b = rec(n.args[0]), rec(n.args[1])
             if b[0] > 0 or b[1] < 0:
@@ -254,6 +265,14 @@ def _minmax_leaves(n, op):
 def pc_feasible(pc, atom=None):
     """False only when some conjunct of the path condition can never hold (for any argument, NaN included)."""
     cache = {}
+    # conjuncts of the form "x is not NaN" ( !(x != x)  or  x == x ) clear the NaN flag of x for the other conjuncts
+    for c in pc:
+        x = None
+        if c.op in ('bnot', 'not') and c.args[0].op == 'ne' and c.args[0].args[0] is c.args[0].args[1]: x = c.args[0].args[0]
+        elif c.op == 'eq' and c.args[0] is c.args[1]: x = c.args[0]
+        if x is not None and X.is_float(x.ty):
+            lo, hi, _ = frange(x, cache, atom)
+            cache[x.id] = (lo, hi, False)
     return all(truth(c, cache, atom)[0] for c in pc)
 
 # round-to-nearest: |fl(x) - x| <= 2^-24 |x| (binary32; binary64 is covered a fortiori);
